@@ -492,8 +492,36 @@ def dead_chain_programs(rng):
     return out
 
 
+def shared_tail_programs(rng):
+    """Functions that share instructions: a common tail reached by plain jumps (no entry inside the shared
+    part), an entry in the middle of another function (fall-through), both at once, three owners, and the
+    look-alike without sharing (a function whose text lies inside another's but is not reachable from it)."""
+    out = []
+    for k in range(6):
+        nf = rng.choice([2, 2, 3])
+        names = [f"fn_{c}" for c in "abc"[:nf]]
+        lines = ["main:"] + [x for nm in names for x in ("    li a0, %d" % rng.randrange(9), f"    jal {nm}")] + ["    li a7, 10", "    ecall"]
+        kind = k % 4
+        for q, nm in enumerate(names):
+            lines += [nm + ":", "    addi a0, a0, %d" % (q + 1)]
+            if kind == 0 or (kind == 2 and q > 0):
+                lines += ["    j tail"]                          # shared tail, reached by jumps only
+            elif kind == 1:
+                pass                                            # falls into the next function's entry
+            elif kind == 3:
+                lines += ["    j rest_" + nm] if q == 0 else ["    ret"]    # no sharing at all
+        if kind in (0, 2):
+            lines += ["tail:", "    addi a0, a0, 7"] + (["    beqz a0, tail"] if rng.random() < 0.3 else []) + ["    ret"]
+        elif kind == 1:
+            lines += ["    ret"]
+        else:
+            lines += ["rest_" + names[0] + ":", "    sub a0, a0, a0", "    ret"]
+        out.append("\n".join(lines) + "\n")
+    return out
+
+
 def gen_programs(rng, n, sloppy_choices=(0, 0.1, 0.3), multi=0.15):
-    out = list(CORPUS) + branch_matrix() + ecall_matrix() + arith_matrix(rng) + alloca_programs(rng) + handler_layouts(rng) + early_out_programs(rng) + entry_by_jump_programs(rng) + [long_chain_program(rng), slow_convergence_program(rng), slow_convergence_program(rng)] + label_then_directive_programs(rng) + exit_in_function_programs(rng) + dead_chain_programs(rng) + alias_base_programs(rng) + exit_then_loop_programs(rng) + tail_jump_programs(rng) + auipc_programs(rng) + indirect_jump_programs(rng)
+    out = list(CORPUS) + branch_matrix() + ecall_matrix() + arith_matrix(rng) + alloca_programs(rng) + handler_layouts(rng) + early_out_programs(rng) + entry_by_jump_programs(rng) + [long_chain_program(rng), slow_convergence_program(rng), slow_convergence_program(rng)] + label_then_directive_programs(rng) + exit_in_function_programs(rng) + dead_chain_programs(rng) + alias_base_programs(rng) + exit_then_loop_programs(rng) + tail_jump_programs(rng) + auipc_programs(rng) + indirect_jump_programs(rng) + shared_tail_programs(rng)
     for _ in range(max(4, n // 10)):
         out.append(handler_program(rng))
         out.append(backward_layout(rng))
